@@ -547,21 +547,25 @@ fn main() {
     } else {
         let thorough = !ctx.quick();
         let fam = family(thorough, ctx.seed);
-        let mut ops: Vec<Op> = vec![];
-        for f in &fam {
-            ops.push(Op::Valid { f: f.clone() });
-        }
         // zero height through every constructor, every index / namespace of the quick family
+        let mut zero_ops: Vec<Op> = vec![];
         for f in family(false, ctx.seed).into_iter().filter(|f| f.height == 1) {
-            ops.push(Op::NewZero { f: Fields { height: 0, ..f } });
+            zero_ops.push(Op::NewZero { f: Fields { height: 0, ..f } });
         }
-        // corruptions: of every member in the quick family; thorough: the large family gets
-        // the length / zero-height / namespace / codec families, the boundary family all
+        let mut rep = par_cases(zero_ops, |op, rep| eval(&op, rep));
+        // every member: the valid-id checks, then the corruptions of its encodings (thorough:
+        // the large family gets the length / zero-height / namespace / codec families, the
+        // boundary family all).  Cases are generated inside the workers.
         let boundary: BTreeSet<Fields> = family(false, ctx.seed).into_iter().collect();
-        for f in &fam {
-            corruptions(f, !boundary.contains(f), &mut ops);
-        }
-        let mut rep = par_cases(ops, |op, rep| eval(&op, rep));
+        let r2 = par_cases(fam.clone(), |f, rep| {
+            eval(&Op::Valid { f: f.clone() }, rep);
+            let mut ops = vec![];
+            corruptions(&f, !boundary.contains(&f), &mut ops);
+            for op in &ops {
+                eval(op, rep);
+            }
+        });
+        rep.merge_in(r2);
         // injectivity over the whole family (real encodings)
         let mut seen: HashMap<(Kind, Vec<u8>), &Fields> = HashMap::new();
         let mut seen_cid: HashMap<Vec<u8>, &Fields> = HashMap::new();
